@@ -46,6 +46,9 @@ Proof. exact spec_edges_iff. Qed.
 Theorem C14_positions_all_reached : forall p, class_level p = false ->
   reached lcom_walk_fields 1 p [] = true /\ reached lcom_walk_fields 1 p [FValue] = true.
 Proof. exact method_positions_reached. Qed.
+Theorem C14_nested_positions_all_reached : forall p slots, class_level p = false ->
+  reached_at lcom_walk_fields 1 p slots [] = true /\ reached_at lcom_walk_fields 1 p slots [FValue] = true.
+Proof. exact method_positions_reached_at. Qed.
 
 Theorem C14_access_collection_exact_partial : forall md,
   flat_map mention_vars (method_mentions md) = spec_attrs md /\
@@ -104,6 +107,7 @@ Print Assumptions C14_components.
 Print Assumptions C14_spec_decides_connectivity.
 Print Assumptions C14_spec_graph.
 Print Assumptions C14_positions_all_reached.
+Print Assumptions C14_nested_positions_all_reached.
 Print Assumptions C14_access_collection_exact_partial.
 Print Assumptions C14_mixed_duplicate_refuted.
 Print Assumptions C14_single_method.
